@@ -46,4 +46,17 @@ theorem occ_pos_mem (l : List α) (c : α) (h : 0 < Occ l c) : c ∈ l := by
 
 theorem mem_iff_get (l : List α) (c : α) : c ∈ l ↔ ∃ j : Fin l.length, l.get j = c := List.mem_iff_get
 
+/-- occurrences among the first i positions (OCCPRE_FACTS of contracts/cfg_gen.py) -/
+noncomputable def OccPre (l : List α) (i : Nat) (c : α) : Nat := (l.take i).count c
+
+theorem occpre_zero (l : List α) (c : α) : OccPre l 0 c = 0 := by simp [OccPre]
+
+theorem occpre_succ (l : List α) (i : Nat) (c : α) (h : i < l.length) :
+    OccPre l (i + 1) c = OccPre l i c + (if l[i] = c then 1 else 0) := by
+  unfold OccPre
+  rw [List.take_succ_eq_append_getElem h, List.count_append]
+  simp [List.count_cons, beq_iff_eq]
+
+theorem occpre_length (l : List α) (c : α) : OccPre l l.length c = Occ l c := by simp [OccPre, Occ]
+
 end Bridge.Count
